@@ -25,6 +25,7 @@ type Solver struct {
 	log      io.Writer
 	bin      string
 	timeout  int
+	links    []string // per run: exact integer/real links of twinned variables (counterexample refinement only)
 
 	nSat, nUnsat, nUnknown int
 	solveTime              time.Duration
@@ -93,6 +94,7 @@ func (s *Solver) BeginRun() {
 	s.declared = map[string]bool{}
 	s.vars = s.vars[:0]
 	s.errs = s.errs[:0]
+	s.links = s.links[:0]
 }
 
 func (s *Solver) EndRun() {
@@ -205,6 +207,26 @@ func (s *Solver) Check(extra *Term, wantModel bool) (string, map[string]string) 
 	var model map[string]string
 	if res == "sat" && wantModel && len(s.vars) > 0 {
 		model = s.getValues()
+		if len(s.links) > 0 {
+			// the relaxation lets an integer and its real twin differ; prefer
+			// a model in which they agree (the verdict is not affected)
+			ne := len(s.errs)
+			s.send("(push)")
+			for _, l := range s.links {
+				s.send("(assert " + l + ")")
+			}
+			s.send("(check-sat)")
+			s.in.Flush()
+			t1 := time.Now()
+			if s.readAnswer() == "sat" {
+				if m2 := s.getValues(); len(m2) > 0 {
+					model = m2
+				}
+			}
+			s.solveTime += time.Since(t1)
+			s.send("(pop)")
+			s.errs = s.errs[:ne]
+		}
 	}
 	s.send("(pop)")
 	if len(s.errs) > nerr {
